@@ -633,6 +633,30 @@ func CheckPanics(run *report.Run, p *load.Program, rule *report.Rule, table []Do
 					used[name+"|"+guard] = true
 				}
 			}
+			if site.Class == "" && fn.Object() != nil && !fn.Object().Exported() && fn.Signature.Recv() == nil {
+				// an unexported helper extracted from documented entry points: every caller is an entry
+				// whose panic with the SAME guard kind is documented (the helper panics on their behalf)
+				if node := p.CallGraph().Nodes[fn]; node != nil && len(node.In) > 0 {
+					all, reason := true, ""
+					seen := map[string]bool{}
+					for _, e := range node.In {
+						cn := load.FuncName(e.Caller.Func)
+						r, ok := doc[cn+"|"+guard]
+						if !ok {
+							all = false
+							break
+						}
+						if !seen[cn] {
+							seen[cn] = true
+							used[cn+"|"+guard] = true
+							reason = r
+						}
+					}
+					if all {
+						site.Class, site.Reason = "documented", "helper of documented entry points only: "+reason
+					}
+				}
+			}
 			if site.Class == "" {
 				rule.Fail(site.Pos, name, fmt.Sprintf("explicit panic (guard kind %q) is neither provably impossible, nor a vector stub, nor init-time, nor in the documented-panic table", guard), nil)
 			} else {
